@@ -37,6 +37,7 @@ func registerC01() {
 			{Name: "multidefs", N: func(t string) uint64 { return tierN(t, 150000, 5000000) }, Run: c01MultiDefs},
 			{Name: "zones", N: func(t string) uint64 { return uint64(len(zoneGridOffsets())) * 2 }, Run: c01Zones},
 			{Name: "devdata", N: func(t string) uint64 { return tierN(t, 20000, 600000) }, Run: c01DevData},
+			{Name: "scratch", N: func(t string) uint64 { return tierN(t, 6000, 200000) }, Run: c01Scratch},
 		},
 		Exhaustive: func(t string) bool { return true },
 		Finish: func(c *lib.Ctx, cov map[string]interface{}) {
@@ -650,6 +651,147 @@ func sizeClass(ds, t uint32) string {
 }
 
 // c01Monsters: very large records.
+// c01StringFields: every string field of the profile (plain and array-of-strings).
+var c01StringFieldsOnce sync.Once
+var c01StringFieldList []*ref.PField
+
+func c01StringFields() []*ref.PField {
+	c01StringFieldsOnce.Do(func() {
+		prof := lib.Profile()
+		var ms []int
+		for m := range prof.ByMesg {
+			ms = append(ms, int(m))
+		}
+		sort.Ints(ms)
+		for _, m := range ms {
+			for _, pf := range prof.ByMesg[uint16(m)] {
+				if ref.BaseTypes[pf.Base].Code == 0x07 {
+					c01StringFieldList = append(c01StringFieldList, pf)
+				}
+			}
+		}
+	})
+	return c01StringFieldList
+}
+
+// c01Scratch: what an earlier record leaves behind in the decoder must not matter to a later
+// one. First something that fills every scratch byte a decoder may keep with non-zero values -
+// a definition with 255 fields (and 255 developer fields) none of whose bytes is zero, a data
+// record with 255-byte fields without a zero byte - then a record whose string or string-array
+// field fills its size exactly, without a terminator (sizes 1..255), or ends in the middle of
+// a multi-byte character. No entry point may panic.
+func c01Scratch(c *lib.Ctx, idx uint64) {
+	rng := lib.NewRand("C01.scratch", idx)
+	sf := c01StringFields()
+	if len(sf) == 0 {
+		return
+	}
+	pf := sf[int(idx)%len(sf)]
+	prof := lib.Profile()
+	ft := byte(4)
+	for _, t := range lib.FileTypes {
+		if prof.Hosted(t.Type, pf.Mesg) {
+			ft = t.Type
+			break
+		}
+	}
+	arch := byte(idx / uint64(len(sf)) % 2)
+	plan := &ref.Plan{HeaderSize: []byte{14, 12}[rng.Intn(2)], Proto: 0x20, ProfVer: 2115}
+	plan.Records = append(plan.Records,
+		ref.Record{IsDef: true, Local: 0, Arch: arch, Global: 0, Fields: []ref.FieldDef{{Num: 0, Size: 1, Base: 0}}},
+		ref.Record{Local: 0, Data: [][]byte{{ft}}})
+	nonzero := func(n int, fill byte) []byte {
+		b := make([]byte, n)
+		for i := range b {
+			b[i] = fill
+			if fill == 0 {
+				b[i] = byte(1 + rng.Intn(255))
+			}
+		}
+		return b
+	}
+	dirt := int(idx / uint64(2*len(sf)) % 5)
+	switch dirt {
+	case 0, 1, 2:
+		// 255 field definitions, no zero byte among the 765: numbers 1..255, non-zero size, a base
+		// type code other than 0 (uint8 / byte / string); with developer fields on top for dirt 2
+		d := ref.Record{IsDef: true, Local: 5, Arch: arch, Global: 0xFF01}
+		base := []byte{0x02, 0x0D, 0x07}[rng.Intn(3)]
+		for n := 1; n <= 255; n++ {
+			d.Fields = append(d.Fields, ref.FieldDef{Num: byte(n), Size: byte(1 + rng.Intn(3)), Base: base})
+		}
+		if dirt == 2 {
+			d.HasDev = true
+			for n := 1; n <= 255; n++ {
+				d.Dev = append(d.Dev, ref.DevDef{Num: byte(n), Size: byte(1 + rng.Intn(2)), Idx: byte(1 + rng.Intn(254))})
+			}
+		}
+		plan.Records = append(plan.Records, d)
+		if dirt == 1 {
+			r := ref.Record{Local: 5}
+			for _, f := range d.Fields {
+				r.Data = append(r.Data, nonzero(int(f.Size), 0))
+			}
+			plan.Records = append(plan.Records, r)
+		}
+	case 3:
+		// a record of an unknown message: three byte fields of 255 bytes without a zero byte
+		plan.Records = append(plan.Records,
+			ref.Record{IsDef: true, Local: 5, Arch: arch, Global: 0xFF02, Fields: []ref.FieldDef{{Num: 1, Size: 255, Base: 0x0D}, {Num: 2, Size: 255, Base: 0x07}, {Num: 3, Size: 255, Base: 0x0D}}},
+			ref.Record{Local: 5, Data: [][]byte{nonzero(255, 0xFF), nonzero(255, 'A'), nonzero(255, 0)}})
+	case 4:
+		// the victim's own message first with the field at 255 bytes, all of them letters
+		plan.Records = append(plan.Records,
+			ref.Record{IsDef: true, Local: 5, Arch: arch, Global: pf.Mesg, Fields: []ref.FieldDef{{Num: pf.Num, Size: 255, Base: 0x07}}},
+			ref.Record{Local: 5, Data: [][]byte{nonzero(255, 'Z')}})
+	}
+	// the victim: the string field at a size it fills exactly
+	sizes := []int{1, 2, 3, 4, 7, 8, 15, 16, 17, 31, 32, 33, 63, 64, 65, 127, 128, 129, 200, 253, 254, 255, int(pf.Length), int(pf.Length) + 1}
+	sz := sizes[rng.Intn(len(sizes))]
+	if sz < 1 || sz > 255 {
+		sz = 1 + rng.Intn(255)
+	}
+	var data []byte
+	switch rng.Intn(5) {
+	case 0:
+		data = nonzero(sz, 'x')
+	case 1: // several strings, the last one without a terminator
+		data = nonzero(sz, 'y')
+		for k := rng.Intn(4); k > 0 && sz > 2; k-- {
+			data[rng.Intn(sz-1)] = 0
+		}
+	case 2: // ends in the middle of a multi-byte character
+		data = nonzero(sz, 'z')
+		copy(data[maxInt(0, sz-2):], "\xe6\x97")
+	case 3:
+		data = nonzero(sz, 0)
+	default:
+		data = nonzero(sz, 0xFF)
+	}
+	plan.Records = append(plan.Records,
+		ref.Record{IsDef: true, Local: 6, Arch: arch, Global: pf.Mesg, Fields: []ref.FieldDef{{Num: pf.Num, Size: byte(sz), Base: 0x07}}},
+		ref.Record{Local: 6, Data: [][]byte{data}},
+		ref.Record{Local: 6, Data: [][]byte{nonzero(sz, 'q')}})
+	b := plan.Bytes()
+	c.SetInflight(b)
+	for _, ep := range []string{"Decode", "DecodeChained", "CheckIntegrity", "DecodeHeaderAndFileID"} {
+		var opts []fit.DecodeOption
+		if rng.Chance(1, 3) && (ep == "Decode" || ep == "DecodeChained") {
+			opts = optionList(7, &countingLogger{}, idx)
+		}
+		out := lib.Guard(func() {
+			lib.Call(ep, lib.NewReader(b, lib.Chunker{Kind: []string{"whole", "one", "rand"}[rng.Intn(3)], Size: 300, R: rng}), opts...)
+		})
+		c.Eval()
+		if out.Panicked || out.Hang {
+			c.Violation(b, "%s panicked/hung on a well-formed stream in which message %d field %d (string, %d bytes, no terminator) follows records that leave no zero byte behind (kind %d): %s\n%s", ep, pf.Mesg, pf.Num, sz, dirt, out.Panic, out.Stack)
+			return
+		}
+	}
+	c.Count(fmt.Sprintf("scratch_dirt_kind_%d", dirt), 1)
+	c.Nontrivial(b)
+}
+
 func c01Monsters(c *lib.Ctx, idx uint64) {
 	rng := lib.NewRand("C01.monsters", idx)
 	ft := lib.FileTypes[idx%uint64(len(lib.FileTypes))].Type
